@@ -132,7 +132,15 @@ func vxDBImage(pages int, fill byte) []byte {
 func VxC16Apply() {
 	dir := vx.TempDir()
 	db := dir + "/follow.db"
-	vx.FSWriteFile(db, vxDBImage(3, 0xEE))
+	// the follower's file before the apply is in whatever state an earlier apply can
+	// have left it in, including an apply of this very file that was interrupted
+	// after page 1 (which carries the new page count in its header) had been
+	// written but before the file was cut: its size and the page count its header
+	// announces are independent
+	img := vxDBImage(vx.Choose("pagesBefore", 1, 4), 0xEE)
+	img[28], img[29], img[30] = 0, 0, 0
+	img[31] = byte(vx.Range("headerPageCount", 0, 5))
+	vx.FSWriteFile(db, img)
 	c := &vxStoreClient{}
 	commit := uint32(vx.Choose("commit", 1, 4))
 	f := &vxLTX{level: 0, min: 5, max: 5, commit: commit, ts: 1000}
@@ -186,7 +194,7 @@ func VxC16Apply() {
 				held = true
 			}
 		}
-		if !held && pg > 1 {
+		if !held && pg > 1 && pg <= len(img)/vxPageSize {
 			vx.Assert("other-pages-untouched", got[(pg-1)*vxPageSize+100] == 0xEE)
 		}
 	}
